@@ -572,6 +572,10 @@ class FpInterp(object):
             val = None
             if len(a) == 1:
                 t = a[0].strip_all()
+                hops_ = 0
+                while t.k in ex.CTOR_KINDS and len(t.c) == 1 and hops_ < 3:
+                    t = t.c[0].strip_all()      # converting construction tuple<size_t,int> -> tuple<size_t,P>
+                    hops_ += 1
                 if t.k == 'CallExpr' and t.callee and t.callee['name'] in ('make_tuple', 'make_pair') and len(t.args()) == 2:
                     val = t.args()[1]
                 elif t.k in ex.CTOR_KINDS and len(t.c) == 2:
